@@ -11,6 +11,6 @@ m=json.load(open('/verif/MANIFEST.json'))
 sys.exit(0 if any(c['property_id']==sys.argv[1] for c in m['checks']) else 1)
 PY
   then echo "$t $p not-claimed"; continue; fi
-  out=$(VF_NORETRY=1 MUT_LINES=1 tools/mutcheck.sh $d/patch.diff $p 1 2>&1 | grep -v WARNING)
+  out=$(MUT_LINES=1 tools/mutcheck.sh $d/patch.diff $p 1 2>&1 | grep -v WARNING)
   if echo "$out" | grep -q MUTCHECK-OK; then echo "$t $p caught $(echo "$out" | grep -m1 VIOLATION | sed 's/.*replays\/[^\/]*\///; s/\.json.*//')"; else echo "$t $p MISSED $(echo "$out" | grep -m1 'PATCH-DOES\|does not' )"; fi
 done
